@@ -15,9 +15,12 @@ from . import build
 from .build import VERIF, REPO
 from . import plans
 
-RUNDIR = os.path.join(VERIF, "build", "run")
-REPLAYS = os.path.join(VERIF, "replays")
-EVIDENCE = os.path.join(VERIF, "evidence")
+# VERIF_OUT redirects evidence and replays (used only when evaluating seeded changes in scratch worktrees, so that the
+# committed evidence is never overwritten by a run against a modified tree)
+_OUT = os.environ.get("VERIF_OUT", VERIF)
+RUNDIR = os.path.join(VERIF, "build", "run" if _OUT == VERIF else "run." + str(abs(hash(_OUT)) % 100000))
+REPLAYS = os.path.join(_OUT, "replays")
+EVIDENCE = os.path.join(_OUT, "evidence")
 KNOWN = os.path.join(VERIF, "known_findings.json")
 CORPUS = os.path.join(VERIF, "corpus")
 NSHARDS = int(os.environ.get("VERIF_SHARDS", "16"))
@@ -339,7 +342,7 @@ def run_check(prop, tier, seed):
         v2["tier"] = tier
         with open(path, "w") as f:
             json.dump(v2, f, indent=1)
-        replay_paths.append(os.path.relpath(path, VERIF))
+        replay_paths.append(os.path.relpath(path, _OUT))
     for p in replay_paths:
         print(f"VIOLATION property={prop} replay={p}")
 
